@@ -13,6 +13,7 @@ COMMON_TRUSTED_BASE = [
     "correspondence check: extraction (ExtrOcamlBasic directives only: bool, option, unit, list, prod, sumbool, sumor; andb/orb inlined), ocamlfind ocamlopt 4.13.1, modelrun/driver.ml, harness/src/main.rs, rustc/cargo, verif.py and props_py/*",
     "tools/source_facts.py (regenerates Constants.v from /repo/src by anchored regular expressions)",
     "tools/rs2coq.py (translator Rust -> Gallina for the decision tables of ext.rs, for_response, calculate_max_input, max_chunk_fit: Gen.v, regenerated each run; usize as N, '-' as truncated subtraction, overflow of + and * not modelled); the equalities Gen = model are theorems (proofs/Gen_equiv_*.v); the same for single expressions (byte counts of body reads/writes, refusal guards: FRAGMENTS, proofs/Gen_equiv_frag.v) -- a fragment the translator does not find is listed under facts.fragments_not_found and is then tied by the correspondence check only",
+    "tools/rs2coq2.py + tools/rsparse.py (translator for WHOLE functions, state-passing: Gen2.v regenerated each run from src/util.rs find_crlf / compare_lowercase_ascii, every method of src/chunk.rs, and BodyReader / BodyWriter / write_chunk / header_defined / for_response of src/body.rs; proofs/Gen2_equiv_*.v prove the translation equivalent to the model for all arguments, exported by C03 C04 C06 C07 C08 C12). Trusted in it: usize/u64 as N ('-' truncated, no overflow of + and *), out-of-range slices not translated, Writer::try_write over std::io::Cursor read as all-or-nothing, str::from_utf8 / trim / from_str_radix / parse::<u64> / Iterator adaptors replaced by the model's definitions of them (Bytes.v, GenLib.v), the object's state after an Err not translated. A function outside the translated subset, or whose interface changed, is replaced by its translation at the pinned commit (tools/gen2_baseline.json) and listed under facts.translator2_fallbacks: it is then tied by the correspondence check only",
     "kernel cross-check: a seeded sample of the scripts is evaluated inside Coq (vm_compute) and compared with the extracted model's output on every run, which removes extraction, ocamlopt and the OCaml driver from the trusted base for that sample",
     "externals modelled by hand, tied to the code only by the correspondence check: httparse 1.9.5 (scalar semantics), http 1.1.0 (HeaderName/HeaderValue/HeaderMap/Method/StatusCode/Uri accessors), url 2.5 join on the RFC 3986 grammar, std number parsing/formatting",
 ]
